@@ -2,7 +2,11 @@
 
 package kafka
 
-import "fmt"
+import (
+	"bufio"
+	"bytes"
+	"fmt"
+)
 
 // Hooks for the /verif harness (build tag `verif` only), property C14, leader glue: one rebalance round of a
 // whole group run synchronously on the real joinGroup / assignTopicPartitions / makeMemberProtocolMetadata /
@@ -117,4 +121,30 @@ func VerifC14LeaderRound(protocol string, members []VerifC14Member, parts []Part
 		received[m.ID] = got
 	}
 	return received, computed, nil
+}
+
+// VerifC14AssignmentBytes is groupAssignment{Version: 1, Topics: topics}.bytes(), what makeSyncGroupRequestV0 lists
+// for one member.
+func VerifC14AssignmentBytes(topics map[string][]int32) []byte {
+	return groupAssignment{Version: 1, Topics: topics}.bytes()
+}
+
+// VerifC14ReadAssignment is the decoding step of syncGroup: groupAssignment.readFrom on the given bytes.
+func VerifC14ReadAssignment(b []byte) (version int16, topics map[string][]int32, userData []byte, remain int, err error) {
+	var a groupAssignment
+	remain, err = (&a).readFrom(bufio.NewReader(bytes.NewReader(b)), len(b))
+	return a.Version, a.Topics, a.UserData, remain, err
+}
+
+// VerifC14MetadataBytes is groupMetadata{Version: 1, Topics: topics, UserData: userData}.bytes(), what
+// makeJoinGroupRequest sends per protocol.
+func VerifC14MetadataBytes(topics []string, userData []byte) []byte {
+	return groupMetadata{Version: 1, Topics: topics, UserData: userData}.bytes()
+}
+
+// VerifC14ReadMetadata is the decoding step of makeMemberProtocolMetadata: groupMetadata.readFrom.
+func VerifC14ReadMetadata(b []byte) (version int16, topics []string, userData []byte, remain int, err error) {
+	var m groupMetadata
+	remain, err = (&m).readFrom(bufio.NewReader(bytes.NewReader(b)), len(b))
+	return m.Version, m.Topics, m.UserData, remain, err
 }
